@@ -47,6 +47,9 @@ def log(*a):
     print(*a, file=sys.stderr, flush=True)
 
 
+FATAL_RE = re.compile(r"^fatal error: |^runtime: goroutine stack exceeds", re.M)
+
+
 def run(cmd, timeout, cwd=None, env=None):
     t0 = time.time()
     try:
@@ -240,14 +243,86 @@ class Run:
         env.pop("DEBUG_I2P", None)      # the library's logger must stay silent
         env.pop("WARNFAIL_I2P", None)
         env.update(env_extra or {})
-        cmd = [exe, "-in", vf, "-out", tf, "-seed", str(self.seed), "-deadline_ms", str(deadline_ms)]
+        jf = os.path.join(self.dir, "journal_%s" % tag)
+        cmd = [exe, "-in", vf, "-out", tf, "-seed", str(self.seed), "-deadline_ms", str(deadline_ms), "-journal", jf]
         if workers:
             cmd += ["-workers", str(workers)]
         code, out, wall = run(cmd, 1800, env=env)
+        fatal_events = []
+        rounds = 0
+        while code != 0 and (FATAL_RE.search(out) or (fatal_events and code < 0)):
+            # A fatal runtime error inside a call (concurrent map writes, stack exhaustion ...) is not recoverable: the process is gone
+            # and with it every result.  It is still behaviour of the code under test: find the call, show it again, report it.
+            rounds += 1
+            if FATAL_RE.search(out):
+                evs, vectors = self.isolate_fatal(vectors, cmd, env, jf, vf, tf, out)
+                fatal_events += evs
+            if rounds >= 4 or not FATAL_RE.search(out):
+                # the error is pervasive: report what was reproduced; the remaining sessions are not driven in this run
+                log("[fatal] still dying after %d rounds; %d reproduced call(s) reported, %d session(s) not driven" % (rounds, len(fatal_events), len(vectors)))
+                open(tf, "w").close()
+                code, out = 0, "drive: 0 vectors, 0 events (fatal runtime errors)"
+                break
+            with open(vf, "w") as f:
+                for v in vectors:
+                    f.write(json.dumps(v, separators=(",", ":")) + "\n")
+            if os.path.exists(tf):
+                os.remove(tf)
+            code, out, wall = run(cmd, 1800, env=env)
         if code != 0 or not os.path.exists(tf):
             raise MachineryError("driver failed (exit %d)\n%s" % (code, out[-3000:]))
+        if fatal_events:
+            with open(tf, "a") as f:
+                for e in fatal_events:
+                    f.write(json.dumps(e, separators=(",", ":")) + "\n")
         log("[drive] %s: %s in %.1fs" % (tag, out.strip().splitlines()[-1] if out.strip() else "", wall))
         return tf, out
+
+    def isolate_fatal(self, vectors, cmd, env, jf, vf, tf, out):
+        """The driver died of a fatal runtime error.  Candidates = sessions with an op started and not finished (journal).  Each
+        candidate is re-driven alone in a fresh process (up to 3 times); one that dies again, with frames of the library under test
+        on the dying goroutine's stack, becomes a recorded event (r.fatal = property under check).  Returns (events, other vectors)."""
+        started, ended = set(), set()
+        try:
+            for ln in open(jf):
+                p = ln.split()
+                if len(p) == 3:
+                    (started if p[0] == "S" else ended).add((int(p[1]), int(p[2])))
+        except OSError:
+            pass
+        open_ops = sorted(started - ended)
+        if not open_ops:
+            raise MachineryError("driver died of a fatal runtime error outside any call\n%s" % out[-3000:])
+        bysid = {v.get("sid"): v for v in vectors}
+        events, culprits = [], set()
+        for sid, seq in open_ops:
+            v = bysid.get(sid)
+            if v is None:
+                continue
+            for attempt in range(3):
+                with open(vf, "w") as f:
+                    f.write(json.dumps(v, separators=(",", ":")) + "\n")
+                c1, o1, _ = run(cmd, 600, env=env)
+                if c1 != 0 and FATAL_RE.search(o1):
+                    started1 = [ln.split() for ln in open(jf)] if os.path.exists(jf) else []
+                    s1 = {(int(p[1]), int(p[2])) for p in started1 if len(p) == 3 and p[0] == "S"}
+                    e1 = {(int(p[1]), int(p[2])) for p in started1 if len(p) == 3 and p[0] == "E"}
+                    dead = sorted(s1 - e1)
+                    if not dead or "github.com/go-i2p/common/" not in o1:
+                        raise MachineryError("fatal runtime error without the library under test on the stack\n%s" % o1[-3000:])
+                    dseq = dead[0][1]
+                    op = dict(v["ops"][dseq - 1])
+                    m = FATAL_RE.search(o1)
+                    frames = [ln.strip() for ln in o1[m.start():].splitlines() if "github.com/go-i2p/common/" in ln][:4]
+                    op.update({"sid": sid, "seq": dseq,
+                               "r": {"panic": True, "hang": False, "fatal": self.prop, "msg": (o1[m.start():m.start() + 200] + " | " + " | ".join(frames))[:900]}})
+                    events.append(op)
+                    culprits.add(sid)
+                    log("[fatal] sid=%d seq=%d op=%s: %s" % (sid, dseq, op.get("op"), o1[m.start():m.start() + 120].splitlines()[0]))
+                    break
+        if not culprits:
+            raise MachineryError("driver died of a fatal runtime error that no single session reproduces\n%s" % out[-3000:])
+        return events, [v for v in vectors if v.get("sid") not in culprits]
 
     # ------------------------------------------------------------- trace
     def validate(self, trace_file, tag, shards=NCPU, timeout=1500):
